@@ -60,6 +60,13 @@ pub struct Knobs {
     pub node_cap: usize,
     /// float regime (see Alphabet::Float): also scales whole predicate rows by 1e3 / 1e6 now and then
     pub float_regime: bool,
+    /// float regime: rows may also be scaled DOWN (1e-3 / 1e-6). Not for C06: the library's containment
+    /// tolerance is absolute (1e-8 on the raw row), so on a tiny row it accepts points far outside in
+    /// normalized terms, which is "within the documented tolerance" for C05 but defeats effectiveness
+    pub float_downscale: bool,
+    /// float regime, a quarter of the runs: three predicate rows in four are rescaled and one in ten
+    /// is a zero row (a path then mixes constant predicates with rows 1e6..1e12 apart in norm)
+    pub float_stress: bool,
 }
 
 pub fn gen_knobs(rng: &mut Prng, focus: &str) -> Knobs {
@@ -69,7 +76,7 @@ pub fn gen_knobs(rng: &mut Prng, focus: &str) -> Knobs {
 /// `deep` (thorough tier, every other run): larger dimension, longer histories, bigger trees.
 pub fn gen_knobs_depth(rng: &mut Prng, focus: &str, deep: bool) -> Knobs {
     let in_dim = if deep { *rng.pick(&[2usize, 3, 3, 4, 4]) } else { *rng.pick(&[1usize, 2, 2, 2, 3, 3]) };
-    let float_regime = rng.chance(1, 5);
+    let float_regime = rng.chance(1, 3);
     let alphabet = if float_regime {
         let _ = rng.below(5);
         Alphabet::Float
@@ -104,6 +111,8 @@ pub fn gen_knobs_depth(rng: &mut Prng, focus: &str, deep: bool) -> Knobs {
         pipeline_pm: *rng.pick(&[0, 0, 100, 300]),
         node_cap: if deep { *rng.pick(&[300, 600, 900]) } else { *rng.pick(&[60, 150, 300]) },
         float_regime,
+        float_downscale: float_regime && focus != "C06" && rng.chance(1, 2),
+        float_stress: float_regime && rng.chance(1, 3),
     }
 }
 
@@ -115,42 +124,69 @@ pub fn gen_aff(rng: &mut Prng, k: &Knobs, indim: usize, outdim: usize) -> AffLit
             .collect();
         mat.push(row);
     }
-    let bias = (0..outdim).map(|_| k.alphabet.draw(rng)).collect();
+    // (rows of affine maps are NOT rescaled in the float regime: composing layers of very different
+    // scales mixes magnitudes 1e9 apart *within* one predicate row, and a coefficient below the LP
+    // solver's 1e-8 relative tolerance is noise to it - regions that exist only thanks to such a
+    // coefficient are "thinner than the solver's tolerance" in every practical sense)
+    let bias: Vec<f64> = (0..outdim).map(|_| k.alphabet.draw(rng)).collect();
     AffLit { indim, mat, bias }
 }
 
+/// A row scale for the float regime: up (1e3, 1e6) and, where allowed, down (1e-3, 1e-6).
+fn float_scale(rng: &mut Prng, k: &Knobs) -> f64 {
+    if k.float_downscale && rng.chance(1, 2) {
+        *rng.pick(&[1e-3, 1e-3, 1e-6])
+    } else {
+        *rng.pick(&[1e3, 1e3, 1e6])
+    }
+}
+
 /// One predicate row a.x <= b; with probability degenerate_pm derived from an earlier one
-/// (same, opposite, parallel shifted), otherwise fresh (rarely the zero row).
-pub fn gen_pred(rng: &mut Prng, k: &Knobs, indim: usize, earlier: &[(Vec<f64>, f64)]) -> (Vec<f64>, f64) {
-    if !earlier.is_empty() && rng.chance(k.degenerate_pm, 1000) {
+/// (same, opposite, parallel shifted), otherwise fresh (rarely the zero row). `earlier` holds the
+/// predicates *before* the float regime's row scaling, so that derived rows are geometrically
+/// related (a slab of width 1e-3) whatever their individual scales; the function appends to it.
+pub fn gen_pred(rng: &mut Prng, k: &Knobs, indim: usize, earlier: &mut Vec<(Vec<f64>, f64)>) -> (Vec<f64>, f64) {
+    let base: (Vec<f64>, f64) = if !earlier.is_empty() && rng.chance(k.degenerate_pm, 1000) {
         let (a, b) = rng.pick(earlier).clone();
-        return match rng.below(5) {
+        // tiny: a slab / a gap of width 2^-6 .. 2^-10 between two parallel hyperplanes (still far above
+        // the tolerance band, but close enough for tolerance-handling mistakes to show)
+        let tiny = *rng.pick(&[0.015625, 0.00390625, 0.0009765625]);
+        match rng.below(7) {
             0 => (a, b),
             1 => (a.iter().map(|v| -v).collect(), -b),
             2 => (a, b + k.alphabet.draw(rng)),
             3 => (a.iter().map(|v| -v).collect(), -b + k.alphabet.draw(rng).abs()),
-            _ => (a.iter().map(|v| -v).collect(), -b - k.alphabet.draw(rng).abs()),
-        };
-    }
-    let zero_row = rng.chance(15, 1000);
-    let a: Vec<f64> = if zero_row {
-        vec![0.0; indim]
-    } else {
-        loop {
-            let a: Vec<f64> = (0..indim)
-                .map(|_| if rng.chance(k.sparse_pm / 2, 1000) { 0.0 } else { k.alphabet.draw(rng) })
-                .collect();
-            if a.iter().any(|v| *v != 0.0) {
-                break a;
-            }
+            4 => (a.iter().map(|v| -v).collect(), -b - k.alphabet.draw(rng).abs()),
+            5 => (a.iter().map(|v| -v).collect(), -b + tiny),
+            _ => (a.iter().map(|v| -v).collect(), -b - tiny),
         }
+    } else {
+        let zero_row = rng.chance(if k.float_stress { 100 } else if k.float_regime { 50 } else { 15 }, 1000);
+        let a: Vec<f64> = if zero_row {
+            vec![0.0; indim]
+        } else {
+            loop {
+                let a: Vec<f64> = (0..indim)
+                    .map(|_| if rng.chance(k.sparse_pm / 2, 1000) { 0.0 } else { k.alphabet.draw(rng) })
+                    .collect();
+                if a.iter().any(|v| *v != 0.0) {
+                    break a;
+                }
+            }
+        };
+        let mut b = k.alphabet.draw(rng);
+        if k.float_regime && rng.chance(1, 10) {
+            // a threshold far from the origin (65536 = 2^16 keeps the mantissa short)
+            b *= 65536.0;
+        }
+        (a, b)
     };
-    let b = k.alphabet.draw(rng);
-    if k.float_regime && rng.chance(1, 4) {
-        let sc = *rng.pick(&[1e3, 1e3, 1e6]);
-        return (a.iter().map(|v| v * sc).collect(), b * sc);
+    earlier.push(base.clone());
+    if k.float_regime && rng.chance(if k.float_stress { 3 } else { 1 }, 4) {
+        let sc = float_scale(rng, k);
+        return (base.0.iter().map(|v| v * sc).collect(), base.1 * sc);
     }
-    (a, b)
+    base
 }
 
 fn pred_lit(indim: usize, p: &(Vec<f64>, f64)) -> AffLit {
@@ -196,8 +232,7 @@ pub fn gen_literal(rng: &mut Prng, k: &Knobs, in_dim: usize, out_dim: usize) -> 
     let mut nodes: Vec<NodeLit> = Vec::new();
     let mut preds: Vec<(Vec<f64>, f64)> = Vec::new();
     // (position, depth, is_decision)
-    let root_pred = gen_pred(rng, k, in_dim, &preds);
-    preds.push(root_pred.clone());
+    let root_pred = gen_pred(rng, k, in_dim, &mut preds);
     nodes.push(NodeLit { parent: None, label: 0, aff: pred_lit(in_dim, &root_pred) });
     let mut frontier: Vec<(usize, usize)> = vec![(0, 0)];
     while let Some((pos, depth)) = frontier.pop() {
@@ -210,8 +245,7 @@ pub fn gen_literal(rng: &mut Prng, k: &Knobs, in_dim: usize, out_dim: usize) -> 
             created += 1;
             let decision = depth + 1 < max_depth && rng.chance(1, 2) && nodes.len() < 14;
             if decision {
-                let p = gen_pred(rng, k, in_dim, &preds);
-                preds.push(p.clone());
+                let p = gen_pred(rng, k, in_dim, &mut preds);
                 nodes.push(NodeLit { parent: Some(pos), label, aff: pred_lit(in_dim, &p) });
                 frontier.push((nodes.len() - 1, depth + 1));
             } else {
@@ -224,9 +258,10 @@ pub fn gen_literal(rng: &mut Prng, k: &Knobs, in_dim: usize, out_dim: usize) -> 
 
 pub fn gen_poly(rng: &mut Prng, k: &Knobs, in_dim: usize) -> AffLit {
     let rows = 1 + rng.below(3);
+    let mut earlier: Vec<(Vec<f64>, f64)> = Vec::new();
     let mut preds: Vec<(Vec<f64>, f64)> = Vec::new();
     for _ in 0..rows {
-        let p = gen_pred(rng, k, in_dim, &preds);
+        let p = gen_pred(rng, k, in_dim, &mut earlier);
         preds.push(p);
     }
     AffLit { indim: in_dim, mat: preds.iter().map(|p| p.0.clone()).collect(), bias: preds.iter().map(|p| p.1).collect() }
